@@ -26,7 +26,10 @@ func escapeTemplate(tmpl *Template, node parse.Node, name string) error {
 	c, _ := tmpl.esc.escapeTree(context{}, node, name, 0)
 	var err error
 	if c.err != nil {
-		err, c.err.Name = c.err, name
+		// The error value may be memoized (and already be held by an earlier caller): name a copy.
+		e := *c.err
+		e.Name = name
+		err = &e
 	} else if c.state != stateText {
 		err = &Error{ErrEndContext, nil, name, 0, fmt.Sprintf("ends in a non-text context: %+v", c)}
 	}
